@@ -61,7 +61,7 @@ mod verif_c19_reader {
     fn any_payload_in(buf: &'static [u8; 8]) -> (Bytes, usize) {
         let n: usize = kani::any();
         kani::assume(n <= DMAX);
-        (Bytes::from_static(unsafe { core::slice::from_raw_parts(buf.as_ptr(), n) }), n)
+        (Bytes::from_static(unsafe { core::mem::transmute::<(*const u8, usize), &'static [u8]>((buf.as_ptr(), n)) }), n)
     }
     fn any_payload() -> (Bytes, usize) {
         any_payload_in(&BIG)
